@@ -77,6 +77,8 @@ def run_faults(scratch, tier):
         out["failures"].append(f)
     out["stats"] = {"fault_points": r.get("fault_points", 0), "memory_errors_observed": r.get("memory_errors", 0), "evaluations": r.get("fault_points", 0)}
     out["samples"] = [{"fault_points": r.get("fault_points"), "memory_errors": r.get("memory_errors")}]
+    if r.get("growth_requests_as_predicted_by_QuoteW_model"):
+        out["notes"].append("growth requests of clean runs as predicted by YarlModel/QuoteW.lean (C19_quoteCW_fault_iff): " + r["growth_requests_as_predicted_by_QuoteW_model"])
     return out
 
 
